@@ -30,16 +30,18 @@ PROPERTIES = {
         'not_decided': ['stage 3/4 of DESIGN.md C01: the entry-point contract `Ok ==> jevent(input) == event_view(output)` and its converse (completeness) are not yet stated; what is proved is every leaf against its grammar-level spec (integers: Ok iff the digit run fits, value equal, never wrapped; hex members: exactly 64/128 hex digits decoded; UTF-8 encode/decode against RFC 3629; json_unescape totality) and the parser skeleton (consumed length, length field, padding)'],
     },
     'C02': {
-        'units': ['utf8', 'escape', 'event', 'event_parse', 'hexwrite'],
+        'units': ['utf8', 'escape', 'event', 'event_json', 'tags_json', 'event_parse', 'hexwrite'],
         'kani': ['leaf'], 'kani_quick': ['leaf'],
-        'sample_functions': ['json_escape', 'Event::from_parts', 'encode_utf8', 'Id::write_hex'],
-        'not_decided': ['Event::as_json / Tags::as_json == event_json(view) and the re-parse lemma are not yet under contract; proved: json_escape == the NIP-01 escape function for every escapable string, from_parts == canonical packing whatever the buffer held, JSON path zeroes the padding bytes'],
+        'sample_functions': ['Event::as_json', 'Tags::as_json', 'json_escape', 'Event::from_parts', 'Id::write_hex'],
+        'not_decided': ['the re-parse lemma (parsing event_json(view) yields the same bytes) needs the entry-level parser spec of C01 stage 3, which is not stated; proved: Event::as_json == event_json(view) (member order, hex, decimal, NIP-01 escaping) with Tags::as_json == tags_json(view), json_escape == the NIP-01 escape function for every escapable string, from_parts == canonical packing whatever the buffer held, the JSON path zeroes the padding bytes and returns a well-formed event',
+                        'that event_json(view) is accepted by an independent JSON parser is a statement about that parser; the text is given as an explicit spec function to compare against'],
     },
     'C08': {
-        'units': ['utf8', 'escape'],
+        'units': ['verify', 'sign', 'utf8', 'escape', 'tags_json', 'hexwrite'],
         'kani': ['leaf'], 'kani_quick': ['leaf'],
-        'sample_functions': ['json_escape', 'is_safe_char'],
-        'not_decided': ['Event::verify / OwnedEvent::sign_new: the composition of the canonical string [0,pubkey,created_at,kind,tags,content] (format!, secp256k1 types) is not yet under contract; SHA-256 / BIP-340 are cryptographic assumptions no verifier here discharges'],
+        'sample_functions': ['Event::verify', 'OwnedEvent::sign_new', 'json_escape', 'Tags::as_json', 'Pubkey::write_hex'],
+        'not_decided': ['SHA-256 and BIP-340 are uninterpreted functions (prelude/crypto.rs): that changing a field changes the digest is collision resistance, a cryptographic assumption no verifier here discharges; what is proved is that verify recomputes the digest over exactly canonical(own fields) and compares all 32 bytes, so any field change that changes the digest is rejected',
+                        'the Display impls of Pubkey/Time/Kind/Tags (three lines each over fmt::Formatter) are read, not verified: prelude/display.rs states what they write; the functions they call (write_hex, Tags::as_json) are proved'],
     },
     'C20': {
         'units': ['hll_hex'],
